@@ -144,7 +144,9 @@ def _watchdog(stop, limit_kb, ov):
             continue
         for line in out.splitlines():
             parts = line.split(None, 2)
-            if len(parts) == 3 and parts[2].startswith("cbmc ") and ov in parts[2]:
+            # the real cbmc is started by the shim with its absolute path (".../bin/cbmc --..."); the shim itself is bash
+            if len(parts) == 3 and (parts[2].startswith("cbmc ") or "/bin/cbmc --" in parts[2].split(" --json-ui")[0]) \
+                    and not parts[2].startswith("/bin/bash") and ov in parts[2]:
                 try:
                     if int(parts[1]) > limit_kb:
                         os.kill(int(parts[0]), signal.SIGKILL)
@@ -376,7 +378,14 @@ def replay(ov, prop, item, extra, timeout=900, native=True):
         # concrete playback reads the values of the `kani::any()` inputs from CBMC's trace: the filter keeps the traces
         # in this run but prunes them to the steps inside `kani::any_raw_*` (VERIF_PLAYBACK_UNFILTERED=1: no filter)
         penv = dict(ENV, VERIF_CBMC_FILTER="") if os.environ.get("VERIF_PLAYBACK_UNFILTERED") else dict(ENV, VERIF_CBMC_FILTER_MODE="playback")
-        _rc, gen_out = run_group(cmd, ov, penv, timeout if native else min(timeout, 300))
+        import threading
+        stop = threading.Event()
+        # the trace-producing CBMC run of a clean_up harness on a broken tree reached 31 GB: same RSS guard as the main run
+        threading.Thread(target=_watchdog, args=(stop, 24 * 1024 * 1024, ov), daemon=True).start()
+        try:
+            _rc, gen_out = run_group(cmd, ov, penv, timeout if native else min(timeout, 300))
+        finally:
+            stop.set()
     except subprocess.TimeoutExpired:
         if not native:
             # CBMC-only harness: the verdict is the solver's (the obligation's cover came back SATISFIED in the
